@@ -127,6 +127,7 @@ def update_domain_and_kwargs_from_args(symbolic_cls: Type, *args, **kwargs):
     domain = None
     update_cls_args(symbolic_cls)
     init_args = cls_args[symbolic_cls]
+    field_index = 1  # to skip `self`
     for i, arg in enumerate(args):
         if isinstance(arg, From):
             domain = arg
@@ -134,7 +135,8 @@ def update_domain_and_kwargs_from_args(symbolic_cls: Type, *args, **kwargs):
                 raise ValueError(f"First non-keyword-argument to {symbolic_cls.__name__} in symbolic mode should be"
                                  f" a domain using `From()`.")
         else:
-            arg_name = init_args[i+1] # to skip `self`
+            arg_name = init_args[field_index]
+            field_index += 1
             kwargs[arg_name] = arg
     return domain, kwargs
 
